@@ -92,8 +92,6 @@ theorem size_copy (m : Mem) (a b c d e : Nat) : (m.copy a b c d e).size = m.size
 
 def count (pid : Nat) (slots : List Handle) : Nat := slots.countP (Handle.refers pid)
 
-def rc (pools : List (Option Pool)) (pid : Nat) : Option Nat := (poolAt pools pid).map (·.refcount)
-
 /-- sum of the aligned sizes of the blocks of pool `pid` -/
 def blockSum (pid : Nat) (blocks : List Block) : Nat :=
   ((blocks.filter (fun b => b.pool == pid)).map (·.asz)).sum
@@ -124,16 +122,27 @@ structure BlockInv (pools : List (Option Pool)) (blocks : List Block) (nextBlock
 def PatInv (mem : Mem) (blocks : List Block) : Prop :=
   ∀ b ∈ blocks, ∀ i, i < b.req → mem.read b.reg (b.off + i) = some (pat b.id i)
 
+/-- reference count of pool `pid`, 0 for a pool that does not exist (any more) -/
+def rcN (pools : List (Option Pool)) (pid : Nat) : Nat :=
+  match poolAt pools pid with
+  | some p => p.refcount
+  | none => 0
+
 structure RefInv (pools : List (Option Pool)) (slots : List Handle) : Prop where
   slots_len : slots.length = 8
-  rc_eq : ∀ pid, rc pools pid = if count pid slots = 0 then none else some (count pid slots)
+  /-- `refcount` = number of live, non-moved handles referring to the pool -/
+  rc_eq : ∀ pid, rcN pools pid = count pid slots
+  rc_pos : ∀ pid p, poolAt pools pid = some p → 1 ≤ p.refcount
 
-/-- the invariant of every reachable state -/
-structure PoolInv (s : State) : Prop where
-  ref : RefInv s.pools s.slots
+/-- the part of the invariant that does not mention handles / reference counts -/
+structure MemInv (s : State) : Prop where
   chunk : ChunkInv s.pools s.mem s.freed s.userRegs
   block : BlockInv s.pools s.blocks s.nextBlock
   pat : PatInv s.mem s.blocks
+
+/-- the invariant of every reachable state -/
+structure PoolInv (s : State) : Prop extends MemInv s where
+  ref : RefInv s.pools s.slots
 
 /-! ### basic lemmas -/
 
@@ -756,6 +765,646 @@ theorem BlockInv.newPool (h : BlockInv pools blocks n) (p : Pool) :
     · next e => subst e; rw [blockSum_eq_zero hne]; omega
     · exact h.account q x hx
 
+theorem eq_of_id_eq {R : Block → Block → Prop} : ∀ {l : List Block},
+    l.Pairwise (fun a b => a.id ≠ b.id ∧ R a b) → ∀ {a b : Block}, a ∈ l → b ∈ l → a.id = b.id → a = b := by
+  intro l; induction l with
+  | nil => intro _ a b ha; simp at ha
+  | cons x xs ih =>
+    intro hp a b ha hb e
+    obtain ⟨h1, h2⟩ := List.pairwise_cons.mp hp
+    rcases List.mem_cons.mp ha with ha' | ha' <;> rcases List.mem_cons.mp hb with hb' | hb'
+    · rw [ha', hb']
+    · rw [ha'] at e; exact absurd e (h1 b hb').1
+    · rw [hb'] at e; exact absurd e.symm (h1 a ha').1
+    · exact ih h2 ha' hb' e
+
+/-- the ghost update of `recordGrow` -/
+def updBlock (bid r' : Nat) (x : Block) : Block :=
+  if x.id = bid then { x with req := r', asz := alignUp r' } else x
+
+theorem blockSum_upd {R : Block → Block → Prop} (pid : Nat) (b : Block) (r' : Nat)
+    (hle : b.asz ≤ alignUp r') : ∀ {l : List Block},
+    l.Pairwise (fun a b => a.id ≠ b.id ∧ R a b) → b ∈ l →
+    blockSum pid (l.map (updBlock b.id r')) =
+      blockSum pid l + (if b.pool = pid then alignUp r' - b.asz else 0) := by
+  intro l; induction l with
+  | nil => intro _ hb; simp at hb
+  | cons x xs ih =>
+    intro hp hb
+    obtain ⟨h1, h2⟩ := List.pairwise_cons.mp hp
+    rw [List.map_cons, blockSum_cons, blockSum_cons]
+    rcases List.mem_cons.mp hb with rfl | hb
+    · have hxs : xs.map (updBlock b.id r') = xs := by
+        conv => rhs; rw [← List.map_id xs]
+        apply List.map_congr_left
+        intro y hy
+        have := (h1 y hy).1
+        simp only [updBlock, id]; rw [if_neg]; exact fun e => this e.symm
+      rw [hxs]
+      simp only [updBlock, if_true]
+      split <;> omega
+    · have hne : x.id ≠ b.id := (h1 b hb).1
+      rw [ih h2 hb]
+      simp only [updBlock, if_neg hne]; omega
+
+theorem BlockInv.updBlock (h : BlockInv pools blocks n) {b : Block} (hb : b ∈ blocks) (r' : Nat)
+    (hr : b.req ≤ r')
+    (hin : ∀ p, poolAt pools b.pool = some p → ∃ c ∈ p.chunks, c.reg = b.reg ∧ b.off + alignUp r' ≤ c.size)
+    (hdisj : ∀ x ∈ blocks, x.id ≠ b.id →
+      x.reg ≠ b.reg ∨ x.off + x.asz ≤ b.off ∨ b.off + alignUp r' ≤ x.off)
+    (hacc : ∀ p, poolAt pools b.pool = some p → blockSum b.pool blocks + (alignUp r' - b.asz) ≤ p.size) :
+    BlockInv pools (blocks.map (updBlock b.id r')) n := by
+  obtain ⟨b1, b2, b3, b4, pb, hpb, _⟩ := h.block_ok b hb
+  have hle : b.asz ≤ alignUp r' := by rw [b3]; exact alignUp_mono hr
+  constructor
+  · intro x hx
+    obtain ⟨y, hy, rfl⟩ := List.mem_map.mp hx
+    by_cases e : y.id = b.id
+    · have := eq_of_id_eq h.disj hy hb e; subst this
+      simp only [Pool.updBlock, if_true]
+      exact ⟨b1, b2, trivial, by omega, pb, hpb, hin pb hpb⟩
+    · simp only [Pool.updBlock, if_neg e]; exact h.block_ok y hy
+  · rw [List.pairwise_map]
+    refine h.disj.imp_of_mem ?_
+    intro x y hx hy hxy
+    by_cases ex : x.id = b.id <;> by_cases ey : y.id = b.id
+    · exact absurd (ex.trans ey.symm) hxy.1
+    · have := eq_of_id_eq h.disj hx hb ex; subst this
+      simp only [Pool.updBlock, if_true, if_neg ey]
+      refine ⟨hxy.1, ?_⟩
+      rcases hdisj y hy ey with d | d | d
+      · exact Or.inl (fun e => d e.symm)
+      · exact Or.inr (Or.inr d)
+      · exact Or.inr (Or.inl d)
+    · have := eq_of_id_eq h.disj hy hb ey; subst this
+      simp only [Pool.updBlock, if_true, if_neg ex]
+      exact ⟨hxy.1, hdisj x hx ex⟩
+    · simp only [Pool.updBlock, if_neg ex, if_neg ey]; exact hxy
+  · intro q x hx
+    rw [blockSum_upd q b r' hle h.disj hb]
+    by_cases e : b.pool = q
+    · subst e; simp only [if_true]; exact hacc x hx
+    · simp only [if_neg e]; exact h.account q x hx
+
+theorem PatInv.updBlock (h : PatInv mem blocks) (hd : BlockInv pools blocks n) {b : Block} (hb : b ∈ blocks)
+    (r' : Nat) (hnew : ∀ i, i < r' → mem.read b.reg (b.off + i) = some (pat b.id i)) :
+    PatInv mem (blocks.map (updBlock b.id r')) := by
+  intro x hx i hi
+  obtain ⟨y, hy, rfl⟩ := List.mem_map.mp hx
+  by_cases e : y.id = b.id
+  · have := eq_of_id_eq hd.disj hy hb e; subst this
+    simp only [Pool.updBlock, if_true] at hi ⊢
+    exact hnew i hi
+  · simp only [Pool.updBlock, if_neg e] at hi ⊢; exact h y hy i hi
+
+/-- a block lying in the region of the head chunk of pool `pid` belongs to that pool and ends below
+    the head chunk's fill mark -/
+theorem block_in_head (hc : ChunkInv pools mem freed ur) (hb : BlockInv pools blocks n) {pid : Nat} {p : Pool}
+    (hp : poolAt pools pid = some p) {b : Block} (hbm : b ∈ blocks) (e : b.reg = p.head.reg) :
+    b.pool = pid ∧ b.off + b.asz ≤ p.head.size := by
+  obtain ⟨_, _, _, _, q, hq, c, hcm, e1, e2⟩ := hb.block_ok b hbm
+  have hpid := hc.regs_disj b.pool pid q p hq hp c hcm p.head (by simp [Pool.chunks]) (by omega)
+  refine ⟨hpid, ?_⟩
+  have hqp : p = q := by rw [hpid, hp] at hq; exact Option.some.inj hq
+  subst hqp
+  have hnd := hc.regs_nodup pid p hp
+  simp only [Pool.chunks, List.pairwise_cons, List.mem_cons] at hnd hcm
+  rcases hcm with rfl | hcm
+  · exact e2
+  · exact absurd (e1.trans e).symm (hnd.1 c hcm)
+
+theorem block_reg_lt (hc : ChunkInv pools mem freed ur) (hb : BlockInv pools blocks n) {b : Block}
+    (hbm : b ∈ blocks) : b.reg < mem.size := by
+  obtain ⟨_, _, _, _, q, hq, c, hcm, e1, _⟩ := hb.block_ok b hbm
+  rw [← e1]; exact (hc.chunk_ok _ q hq c hcm).2.2.1
+
+/-- every byte of the aligned extent of a live block is readable (inside live allocated memory) -/
+theorem block_readable (hc : ChunkInv pools mem freed ur) (hb : BlockInv pools blocks n) {b : Block}
+    (hbm : b ∈ blocks) (i : Nat) (hi : i < b.asz) : (mem.read b.reg (b.off + i)).isSome := by
+  obtain ⟨_, _, _, _, q, hq, c, hcm, e1, e2⟩ := hb.block_ok b hbm
+  obtain ⟨a1, _, _, a4, _⟩ := hc.chunk_ok _ q hq c hcm
+  rw [← e1]; exact a4 _ (by omega)
+
 end
+
+/-! ### reference counting -/
+
+/-- 1 if the handle refers to pool `q`, else 0 -/
+def refN (h : Handle) (q : Nat) : Nat := if h.refers q then 1 else 0
+
+@[simp] theorem refN_live (pid : Nat) (cp : Policy) (q : Nat) :
+    refN (.live pid cp) q = if pid = q then 1 else 0 := by
+  simp [refN, Handle.refers]
+@[simp] theorem refN_empty (q : Nat) : refN .empty q = 0 := by simp [refN, Handle.refers]
+@[simp] theorem refN_moved (cp : Policy) (q : Nat) : refN (.moved cp) q = 0 := by simp [refN, Handle.refers]
+
+theorem count_set_of {slots : List Handle} {k : Nat} {h0 : Handle} (hold : slots[k]? = some h0)
+    (q : Nat) (h : Handle) :
+    count q (slots.set k h) + refN h0 q = count q slots + refN h q := by
+  obtain ⟨hk, e⟩ := List.getElem?_eq_some_iff.mp hold
+  unfold count refN
+  rw [List.countP_set hk, e]
+  by_cases hr : h0.refers q = true
+  · have : 0 < List.countP (Handle.refers q) slots :=
+      List.countP_pos_iff.mpr ⟨h0, by rw [← e]; exact List.getElem_mem hk, hr⟩
+    simp only [hr, if_true]; omega
+  · simp only [hr]; simp
+
+theorem count_pos {slots : List Handle} {k pid : Nat} {cp : Policy}
+    (h : slots[k]? = some (.live pid cp)) : 0 < count pid slots := by
+  obtain ⟨hk, e⟩ := List.getElem?_eq_some_iff.mp h
+  exact List.countP_pos_iff.mpr ⟨.live pid cp, by rw [← e]; exact List.getElem_mem hk, by simp [Handle.refers]⟩
+
+theorem RefInv.live {pools : List (Option Pool)} {slots : List Handle} (h : RefInv pools slots)
+    {k pid : Nat} {cp : Policy} (hk : slots[k]? = some (.live pid cp)) :
+    ∃ p, poolAt pools pid = some p ∧ p.refcount = count pid slots ∧ 1 ≤ p.refcount := by
+  have hpos := count_pos hk
+  have := h.rc_eq pid
+  unfold rcN at this
+  rcases hp : poolAt pools pid with _ | p
+  · simp only [hp] at this; omega
+  · simp only [hp] at this
+    exact ⟨p, rfl, this, by omega⟩
+
+theorem RefInv.of_pool {pools : List (Option Pool)} {slots : List Handle} (h : RefInv pools slots)
+    {pid : Nat} {p : Pool} (hp : poolAt pools pid = some p) :
+    p.refcount = count pid slots ∧ 1 ≤ p.refcount := by
+  have := h.rc_eq pid
+  unfold rcN at this
+  simp only [hp] at this
+  exact ⟨this, h.rc_pos pid p hp⟩
+
+theorem poolAt_incRef {s : State} {pid : Nat} {p : Pool} (hp : poolAt s.pools pid = some p) (q : Nat) :
+    poolAt (incRef s pid).pools q =
+      if q = pid then some { p with refcount := p.refcount + 1 } else poolAt s.pools q := by
+  unfold incRef
+  simp only [State.pool?, hp]
+  rw [poolAt_set (poolAt_lt hp)]
+
+theorem poolAt_dtor {s : State} {pid : Nat} {p : Pool} (hp : poolAt s.pools pid = some p) (cp : Policy)
+    (q : Nat) :
+    poolAt (dtor s (.live pid cp)).1.pools q =
+      if q = pid then (if p.refcount > 1 then some { p with refcount := p.refcount - 1 } else none)
+      else poolAt s.pools q := by
+  unfold dtor
+  simp only [State.pool?, hp]
+  by_cases hr : p.refcount > 1
+  · simp only [hr, if_true]; rw [poolAt_set (poolAt_lt hp)]
+  · simp only [hr, if_false]; rw [poolAt_set (poolAt_lt hp)]
+
+theorem dtor_slots (s : State) (h : Handle) : (dtor s h).1.slots = s.slots := by
+  unfold dtor
+  cases h with
+  | empty => rfl
+  | moved cp => rfl
+  | live pid cp =>
+    simp only
+    split
+    · split <;> rfl
+    · rfl
+
+theorem dtor_pools_of_not_live (s : State) (h : Handle) (hn : ∀ pid cp, h ≠ .live pid cp) :
+    (dtor s h).1.pools = s.pools := by
+  unfold dtor
+  cases h with
+  | empty => rfl
+  | moved cp => rfl
+  | live pid cp => exact absurd rfl (hn pid cp)
+
+theorem incRef_slots (s : State) (pid : Nat) : (incRef s pid).slots = s.slots := by
+  unfold incRef; split <;> rfl
+
+/-! ### the memory part of the invariant under the handle operations -/
+
+theorem MemInv.setRefcount {s : State} (h : MemInv s) {pid : Nat} {p : Pool}
+    (hp : poolAt s.pools pid = some p) (r : Nat) :
+    MemInv { s with pools := s.pools.set pid (some { p with refcount := r }) } := by
+  obtain ⟨a1, a2, _, _, _⟩ := h.chunk.chunk_ok pid p hp p.head (by simp [Pool.chunks])
+  exact ⟨h.chunk.updHead hp rfl rfl rfl a1 a2 rfl rfl, h.block.updHead hp rfl rfl (Nat.le_refl _), h.pat⟩
+
+theorem MemInv.incRef {s : State} (h : MemInv s) (pid : Nat) : MemInv (incRef s pid) := by
+  unfold Sonic.Model.Pool.incRef
+  rcases hp : poolAt s.pools pid with _ | p
+  · simp only [State.pool?, hp]; exact h
+  · simp only [State.pool?, hp]; exact h.setRefcount hp _
+
+theorem clearFrees_sub {p : Pool} : ∀ r ∈ freedByClear p.head p.rest, ∃ c ∈ p.chunks, c.reg = r :=
+  fun _ hr => mem_freedByClear hr
+
+theorem clearFrees_user {pools : List (Option Pool)} {mem : Mem} {freed ur : List Nat}
+    (hc : ChunkInv pools mem freed ur) {pid : Nat} {p : Pool} (hp : poolAt pools pid = some p) :
+    ∀ r ∈ freedByClear p.head p.rest, r ∉ ur := by
+  intro r hr hu
+  obtain ⟨c, hcm, e⟩ := mem_freedByClear hr
+  have := (hc.user_chunk pid p hp c hcm (by rw [e]; exact hu)).1
+  rw [← hc.sreg_last pid p hp, e] at this
+  exact lastChunk_reg_not_mem (hc.regs_nodup pid p hp) (this ▸ hr)
+
+theorem dtorFrees_sub {pools : List (Option Pool)} {mem : Mem} {freed ur : List Nat}
+    (hc : ChunkInv pools mem freed ur) {pid : Nat} {p : Pool} (hp : poolAt pools pid = some p) :
+    ∀ r ∈ p.dtorFrees, ∃ c ∈ p.chunks, c.reg = r := by
+  intro r hr
+  simp only [Pool.dtorFrees, Pool.clear, List.mem_append] at hr
+  rcases hr with hr | hr
+  · exact mem_freedByClear hr
+  · split at hr
+    · simp only [List.mem_singleton] at hr
+      exact ⟨_, lastChunk_mem p.head p.rest, by rw [hr]; exact hc.sreg_last pid p hp⟩
+    · simp at hr
+
+theorem dtorFrees_user {pools : List (Option Pool)} {mem : Mem} {freed ur : List Nat}
+    (hc : ChunkInv pools mem freed ur) {pid : Nat} {p : Pool} (hp : poolAt pools pid = some p) :
+    ∀ r ∈ p.dtorFrees, r ∉ ur := by
+  intro r hr
+  simp only [Pool.dtorFrees, Pool.clear, List.mem_append] at hr
+  rcases hr with hr | hr
+  · exact clearFrees_user hc hp r hr
+  · split at hr
+    · next ho =>
+      simp only [List.mem_singleton] at hr
+      intro hu
+      have := (hc.user_chunk pid p hp _ (lastChunk_mem p.head p.rest)
+        (by rw [hc.sreg_last pid p hp, ← hr]; exact hu)).2
+      rw [ho] at this; cases this
+    · simp at hr
+
+theorem MemInv.dtor {s : State} (h : MemInv s) (hd : Handle) : MemInv (dtor s hd).1 := by
+  unfold Sonic.Model.Pool.dtor
+  cases hd with
+  | empty => exact h
+  | moved cp => exact h
+  | live pid cp =>
+    simp only
+    rcases hp : poolAt s.pools pid with _ | p
+    · simp only [State.pool?, hp]; exact h
+    · simp only [State.pool?, hp]
+      split
+      · exact h.setRefcount hp _
+      · exact ⟨h.chunk.shrink hp none _ (dtorFrees_sub h.chunk hp) (by intro p' e; cases e)
+                 (dtorFrees_user h.chunk hp),
+               h.block.shrink hp none,
+               h.pat.shrink h.chunk h.block hp _ (dtorFrees_sub h.chunk hp)⟩
+
+/-! ### every operation preserves the invariant -/
+
+theorem isLive_iff {s : State} {k : Nat} :
+    isLive s k = true ↔ ∃ pid cp, s.slots[k]? = some (.live pid cp) := by
+  unfold isLive
+  split
+  · next pid cp h => simp [h]
+  · next h =>
+    simp only [Bool.false_eq_true, false_iff]
+    intro ⟨pid, cp, e⟩; exact h pid cp e
+
+theorem isEmpty_iff {s : State} {k : Nat} : isEmpty s k = true ↔ s.slots[k]? = some .empty := by
+  unfold isEmpty
+  split
+  · next h => simp [h]
+  · next h => simp only [Bool.false_eq_true, false_iff]; exact h
+
+theorem inv_copy {s : State} (h : PoolInv s) (dst src : Nat) (hd : s.slots[dst]? = some .empty) :
+    PoolInv (execCopy s dst src).1 := by
+  unfold execCopy
+  split
+  · next pid cp hs =>
+    obtain ⟨p, hp, hrc, hpos⟩ := h.ref.live hs
+    have hm := h.toMemInv.incRef pid
+    refine { toMemInv := ⟨hm.chunk, hm.block, hm.pat⟩, ref := ⟨?_, ?_, ?_⟩ }
+    · simp [incRef_slots, h.ref.slots_len]
+    · intro q
+      simp only [incRef_slots, rcN, poolAt_incRef hp]
+      have hc := count_set_of hd q (.live pid cp)
+      have hq := h.ref.rc_eq q
+      simp only [refN_live, refN_empty, rcN] at hc hq
+      by_cases e : q = pid
+      · subst e; simp only [if_true] at hc ⊢; omega
+      · have : ¬ pid = q := fun x => e x.symm
+        simp only [this, e, if_false] at hc ⊢; omega
+    · intro q x hx
+      simp only [poolAt_incRef hp] at hx
+      split at hx
+      · cases hx; simp
+      · exact h.ref.rc_pos q x hx
+  · exact h
+
+theorem getElem?_set_ne' {slots : List Handle} {i j : Nat} (h : i ≠ j) (x : Handle) :
+    (slots.set i x)[j]? = slots[j]? := by
+  rw [List.getElem?_set, if_neg h]
+
+theorem inv_move {s : State} (h : PoolInv s) (dst src : Nat) (hd : s.slots[dst]? = some .empty) :
+    PoolInv (execMove s dst src).1 := by
+  unfold execMove
+  split
+  · next pid cp hs =>
+    have hne : dst ≠ src := by intro e; rw [e, hs] at hd; cases hd
+    refine { toMemInv := ⟨h.chunk, h.block, h.pat⟩, ref := ⟨?_, ?_, h.ref.rc_pos⟩ }
+    · simp [h.ref.slots_len]
+    · intro q
+      have c1 := count_set_of hd q (.live pid cp)
+      have c2 := count_set_of (slots := s.slots.set dst (.live pid cp)) (k := src)
+        (by rw [getElem?_set_ne' hne]; exact hs) q (.moved cp)
+      have hq := h.ref.rc_eq q
+      simp only [refN_live, refN_empty, refN_moved] at c1 c2
+      show rcN s.pools q = count q ((s.slots.set dst (.live pid cp)).set src (.moved cp))
+      omega
+  · exact h
+
+theorem inv_destroy {s : State} (h : PoolInv s) (slot : Nat) : PoolInv (execDestroy s slot).1 := by
+  unfold execDestroy
+  split
+  · next hd hs =>
+    have hm := h.toMemInv.dtor hd
+    refine { toMemInv := ⟨hm.chunk, hm.block, hm.pat⟩, ref := ?_ }
+    show RefInv (dtor s hd).1.pools ((dtor s hd).1.slots.set slot .empty)
+    rw [dtor_slots]
+    cases hd with
+    | live pd cpd =>
+      obtain ⟨p, hp, hrc, hpos⟩ := h.ref.live hs
+      refine ⟨by simp [h.ref.slots_len], ?_, ?_⟩
+      · intro q
+        have c1 := count_set_of hs q .empty
+        have hq := h.ref.rc_eq q
+        simp only [refN_live, refN_empty, rcN] at c1 hq
+        simp only [rcN, poolAt_dtor hp]
+        by_cases e : q = pd
+        · subst e
+          simp only [if_true] at c1 ⊢
+          by_cases hr : p.refcount > 1 <;> simp only [hr, if_true, if_false] <;> omega
+        · have : ¬ pd = q := fun x => e x.symm
+          simp only [this, e, if_false] at c1 ⊢; omega
+      · intro q x hx
+        simp only [poolAt_dtor hp] at hx
+        split at hx
+        · split at hx
+          · cases hx; simp only; omega
+          · cases hx
+        · exact h.ref.rc_pos q x hx
+    | empty =>
+      rw [dtor_pools_of_not_live _ _ (by intro _ _ e; cases e)]
+      refine ⟨by simp [h.ref.slots_len], ?_, h.ref.rc_pos⟩
+      intro q
+      have c1 := count_set_of hs q .empty
+      have hq := h.ref.rc_eq q
+      simp only [refN_empty] at c1; omega
+    | moved cp0 =>
+      rw [dtor_pools_of_not_live _ _ (by intro _ _ e; cases e)]
+      refine ⟨by simp [h.ref.slots_len], ?_, h.ref.rc_pos⟩
+      intro q
+      have c1 := count_set_of hs q .empty
+      have hq := h.ref.rc_eq q
+      simp only [refN_empty, refN_moved] at c1; omega
+  · exact h
+
+theorem inv_assign {s : State} (h : PoolInv s) (dst src : Nat) : PoolInv (execAssign s dst src).1 := by
+  unfold execAssign
+  split
+  · next pid cp hd hs hds =>
+    obtain ⟨p, hp, hrc, hpos⟩ := h.ref.live hs
+    have hm := (h.toMemInv.incRef pid).dtor hd
+    refine { toMemInv := ⟨hm.chunk, hm.block, hm.pat⟩, ref := ?_ }
+    show RefInv (dtor (incRef s pid) hd).1.pools ((dtor (incRef s pid) hd).1.slots.set dst (.live pid cp))
+    rw [dtor_slots, incRef_slots]
+    cases hd with
+    | live pd cpd =>
+      obtain ⟨pp, hpp, hrcp, hposp⟩ := h.ref.live hds
+      by_cases hpd : pd = pid
+      · subst hpd
+        rw [hp] at hpp; cases hpp
+        have hp1 : poolAt (incRef s pd).pools pd = some { p with refcount := p.refcount + 1 } := by
+          rw [poolAt_incRef hp]; simp
+        refine ⟨by simp [h.ref.slots_len], ?_, ?_⟩
+        · intro q
+          have c1 := count_set_of hds q (.live pd cp)
+          have hq := h.ref.rc_eq q
+          simp only [refN_live, rcN] at c1 hq
+          simp only [rcN, poolAt_dtor hp1, poolAt_incRef hp]
+          by_cases e : q = pd
+          · subst e
+            have hr : p.refcount + 1 > 1 := by omega
+            simp only [if_true, hr, hp] at c1 hq ⊢; omega
+          · have : ¬ pd = q := fun x => e x.symm
+            simp only [this, e, if_false] at c1 ⊢; omega
+        · intro q x hx
+          simp only [poolAt_dtor hp1, poolAt_incRef hp] at hx
+          have hr : p.refcount + 1 > 1 := by omega
+          split at hx
+          · cases hx; simp only; omega
+          · exact h.ref.rc_pos q x hx
+      · have hp1 : poolAt (incRef s pid).pools pd = some pp := by
+          rw [poolAt_incRef hp, if_neg hpd]; exact hpp
+        refine ⟨by simp [h.ref.slots_len], ?_, ?_⟩
+        · intro q
+          have c1 := count_set_of hds q (.live pid cp)
+          have hq := h.ref.rc_eq q
+          simp only [refN_live, rcN] at c1 hq
+          simp only [rcN, poolAt_dtor hp1, poolAt_incRef hp]
+          by_cases e : q = pd
+          · subst e
+            have : ¬ pid = q := fun x => hpd x.symm
+            simp only [if_true, this, if_false, hpp] at c1 hq ⊢
+            by_cases hr : pp.refcount > 1 <;> simp only [hr, if_true, if_false] <;> omega
+          · have : ¬ pd = q := fun x => e x.symm
+            simp only [this, e, if_false] at c1 ⊢
+            by_cases e2 : q = pid
+            · subst e2; simp only [if_true, hp] at c1 hq ⊢; omega
+            · have : ¬ pid = q := fun x => e2 x.symm
+              simp only [this, e2, if_false] at c1 ⊢; omega
+        · intro q x hx
+          simp only [poolAt_dtor hp1, poolAt_incRef hp] at hx
+          split at hx
+          · split at hx
+            · cases hx; simp only; omega
+            · cases hx
+          · split at hx
+            · cases hx; simp
+            · exact h.ref.rc_pos q x hx
+    | empty =>
+      rw [dtor_pools_of_not_live _ _ (by intro _ _ e; cases e)]
+      refine ⟨by simp [h.ref.slots_len], ?_, ?_⟩
+      · intro q
+        have c1 := count_set_of hds q (.live pid cp)
+        have hq := h.ref.rc_eq q
+        simp only [refN_live, refN_empty, rcN] at c1 hq
+        simp only [rcN, poolAt_incRef hp]
+        by_cases e : q = pid
+        · subst e; simp only [if_true, hp] at c1 hq ⊢; omega
+        · have : ¬ pid = q := fun x => e x.symm
+          simp only [this, e, if_false] at c1 ⊢; omega
+      · intro q x hx
+        simp only [poolAt_incRef hp] at hx
+        split at hx
+        · cases hx; simp
+        · exact h.ref.rc_pos q x hx
+    | moved cp0 =>
+      rw [dtor_pools_of_not_live _ _ (by intro _ _ e; cases e)]
+      refine ⟨by simp [h.ref.slots_len], ?_, ?_⟩
+      · intro q
+        have c1 := count_set_of hds q (.live pid cp)
+        have hq := h.ref.rc_eq q
+        simp only [refN_live, refN_moved, rcN] at c1 hq
+        simp only [rcN, poolAt_incRef hp]
+        by_cases e : q = pid
+        · subst e; simp only [if_true, hp] at c1 hq ⊢; omega
+        · have : ¬ pid = q := fun x => e x.symm
+          simp only [this, e, if_false] at c1 ⊢; omega
+      · intro q x hx
+        simp only [poolAt_incRef hp] at hx
+        split at hx
+        · cases hx; simp
+        · exact h.ref.rc_pos q x hx
+  · exact h
+
+theorem inv_massign {s : State} (h : PoolInv s) (dst src : Nat) (hne : dst ≠ src) :
+    PoolInv (execMassign s dst src).1 := by
+  unfold execMassign
+  split
+  · next pid cp hd hs hds =>
+    have hm := h.toMemInv.dtor hd
+    refine { toMemInv := ⟨hm.chunk, hm.block, hm.pat⟩, ref := ?_ }
+    show RefInv (dtor s hd).1.pools
+      (((dtor s hd).1.slots.set dst (.live pid cp)).set src (.moved cp))
+    rw [dtor_slots]
+    have hlen : ((s.slots.set dst (.live pid cp)).set src (.moved cp)).length = 8 := by
+      simp [h.ref.slots_len]
+    have cnt : ∀ q, count q ((s.slots.set dst (.live pid cp)).set src (.moved cp)) + refN hd q =
+        count q s.slots := by
+      intro q
+      have c1 := count_set_of hds q (.live pid cp)
+      have c2 := count_set_of (slots := s.slots.set dst (.live pid cp)) (k := src)
+        (by rw [getElem?_set_ne' hne]; exact hs) q (.moved cp)
+      simp only [refN_live, refN_moved] at c1 c2
+      omega
+    cases hd with
+    | live pd cpd =>
+      obtain ⟨pp, hpp, hrcp, hposp⟩ := h.ref.live hds
+      refine ⟨hlen, ?_, ?_⟩
+      · intro q
+        have c1 := cnt q
+        have hq := h.ref.rc_eq q
+        simp only [refN_live, rcN] at c1 hq
+        simp only [rcN, poolAt_dtor hpp]
+        by_cases e : q = pd
+        · subst e
+          simp only [if_true, hpp] at c1 hq ⊢
+          by_cases hr : pp.refcount > 1 <;> simp only [hr, if_true, if_false] <;> omega
+        · have : ¬ pd = q := fun x => e x.symm
+          simp only [this, e, if_false] at c1 ⊢; omega
+      · intro q x hx
+        simp only [poolAt_dtor hpp] at hx
+        split at hx
+        · split at hx
+          · cases hx; simp only; omega
+          · cases hx
+        · exact h.ref.rc_pos q x hx
+    | empty =>
+      rw [dtor_pools_of_not_live _ _ (by intro _ _ e; cases e)]
+      refine ⟨hlen, ?_, h.ref.rc_pos⟩
+      intro q
+      have c1 := cnt q
+      have hq := h.ref.rc_eq q
+      simp only [refN_empty] at c1; omega
+    | moved cp0 =>
+      rw [dtor_pools_of_not_live _ _ (by intro _ _ e; cases e)]
+      refine ⟨hlen, ?_, h.ref.rc_pos⟩
+      intro q
+      have c1 := cnt q
+      have hq := h.ref.rc_eq q
+      simp only [refN_moved] at c1; omega
+  · exact h
+
+theorem inv_stat {s : State} (h : PoolInv s) (slot : Nat) : PoolInv (execStat s slot).1 := by
+  unfold execStat
+  split
+  · split <;> exact h
+  · exact h
+
+theorem poolAt_length (pools : List (Option Pool)) : poolAt pools pools.length = none := by
+  rcases hp : poolAt pools pools.length with _ | p
+  · rfl
+  · have := poolAt_lt hp; omega
+
+theorem RefInv.newPool {pools : List (Option Pool)} {slots : List Handle} (h : RefInv pools slots)
+    {slot : Nat} (hd : slots[slot]? = some .empty) (p : Pool) (hr : p.refcount = 1) (cp : Policy) :
+    RefInv (pools ++ [some p]) (slots.set slot (.live pools.length cp)) := by
+  refine ⟨by simp [h.slots_len], ?_, ?_⟩
+  · intro q
+    have c1 := count_set_of hd q (.live pools.length cp)
+    have hq := h.rc_eq q
+    simp only [refN_live, refN_empty, rcN] at c1 hq
+    simp only [rcN, poolAt_append]
+    by_cases e : q = pools.length
+    · subst e
+      simp only [if_true, poolAt_length] at c1 hq ⊢; omega
+    · have : ¬ pools.length = q := fun x => e x.symm
+      simp only [this, e, if_false] at c1 ⊢; omega
+  · intro q x hx
+    rw [poolAt_append] at hx
+    split at hx
+    · cases hx; omega
+    · exact h.rc_pos q x hx
+
+/-- replace pool `pid` by one with the same reference count, and the handle in `slot` (which refers
+    to `pid`) by another handle referring to `pid` -/
+theorem RefInv.setPool {pools : List (Option Pool)} {slots : List Handle} (h : RefInv pools slots)
+    {pid : Nat} {p : Pool} (hp : poolAt pools pid = some p) (p' : Pool) (hr : p'.refcount = p.refcount) :
+    RefInv (pools.set pid (some p')) slots := by
+  have hlt := poolAt_lt hp
+  refine ⟨h.slots_len, ?_, ?_⟩
+  · intro q
+    have hq := h.rc_eq q
+    simp only [rcN] at hq
+    simp only [rcN, poolAt_set hlt]
+    by_cases e : q = pid
+    · subst e; simp only [if_true, hp] at hq ⊢; omega
+    · simp only [e, if_false]; exact hq
+  · intro q x hx
+    rw [poolAt_set hlt] at hx
+    split at hx
+    · next e => subst e; cases hx; have := h.rc_pos q p hp; omega
+    · exact h.rc_pos q x hx
+
+theorem RefInv.setCp {pools : List (Option Pool)} {slots : List Handle} (h : RefInv pools slots)
+    {slot pid : Nat} {cp : Policy} (hs : slots[slot]? = some (.live pid cp)) (cp' : Policy) :
+    RefInv pools (slots.set slot (.live pid cp')) := by
+  refine ⟨by simp [h.slots_len], ?_, h.rc_pos⟩
+  intro q
+  have c1 := count_set_of hs q (.live pid cp')
+  have hq := h.rc_eq q
+  simp only [refN_live] at c1; omega
+
+theorem inv_new {s : State} (h : PoolInv s) (slot : Nat) (kind : PolicyKind) (cap : Nat)
+    (hd : s.slots[slot]? = some .empty) : PoolInv (execNew s slot kind cap).1 := by
+  unfold execNew
+  refine { toMemInv := ⟨?_, ?_, ?_⟩, ref := ?_ }
+  · exact h.chunk.newPool _ _ _ _ (by simp) rfl rfl (Or.inl ⟨rfl, rfl⟩)
+  · exact h.block.newPool _
+  · exact h.pat.baseMalloc _ _
+  · exact h.ref.newPool hd _ rfl _
+
+theorem inv_newbuf {s : State} (h : PoolInv s) (slot : Nat) (kind : PolicyKind) (cap bufsize misalign : Nat)
+    (hd : s.slots[slot]? = some .empty) : PoolInv (execNewbuf s slot kind cap bufsize misalign).1 := by
+  unfold execNewbuf
+  refine { toMemInv := ⟨?_, ?_, ?_⟩, ref := ?_ }
+  · refine h.chunk.newPool _ _ _ _ ?_ rfl rfl (Or.inr ⟨rfl, rfl⟩)
+    simp only [Chunk.mk.injEq, true_and, and_true]; omega
+  · exact h.block.newPool _
+  · exact h.pat.baseMalloc _ _
+  · exact h.ref.newPool hd _ rfl _
+
+theorem inv_clear {s : State} (h : PoolInv s) (slot : Nat) : PoolInv (execClear s slot).1 := by
+  unfold execClear
+  split
+  · next pid cp hs =>
+    rcases hp : poolAt s.pools pid with _ | p
+    · simp only [State.pool?, hp]; exact h
+    · simp only [State.pool?, hp]
+      refine { toMemInv := ⟨?_, ?_, ?_⟩, ref := ?_ }
+      · refine h.chunk.shrink hp (some p.clear.1) p.clear.2 clearFrees_sub ?_ (clearFrees_user h.chunk hp)
+        intro p' e; cases e
+        exact ⟨rfl, rfl, rfl, rfl, rfl, rfl, lastChunk_reg_not_mem (h.chunk.regs_nodup pid p hp)⟩
+      · exact h.block.shrink hp _
+      · exact h.pat.shrink h.chunk h.block hp _ clearFrees_sub
+      · exact h.ref.setPool hp _ rfl
+  · exact h
 
 end Sonic.Proofs.Pool
